@@ -72,6 +72,22 @@ func (e *Engine) replayReport(rep *FuncReport, r *Result, o checkOpts) (string, 
 		confirmed = ok
 	default:
 		fmt.Fprintf(&b, "verdict: undecided: timeout/unknown on all solvers (%d ms); the obligation is not discharged\n", r.Ms)
+		if r.Candidate {
+			b.WriteString("candidate model (from the quantifier-free weakening of the query; only a replay can confirm it):\n")
+			keys := make([]string, 0, len(r.Model))
+			for k := range r.Model {
+				keys = append(keys, k)
+			}
+			sort.Strings(keys)
+			for _, k := range keys {
+				fmt.Fprintf(&b, "  %s = %s\n", k, r.Model[k])
+			}
+			out, ok := e.directReplay(rep, r, o)
+			if out != "" {
+				b.WriteString("replay:\n" + out + "\n")
+			}
+			confirmed = ok
+		}
 		if r.Detail != "" {
 			fmt.Fprintf(&b, "solver detail: %s\n", r.Detail)
 		}
